@@ -465,7 +465,7 @@ func owedTo(e *expectation, s *PipeScheme) (owed bool, wa, wb, src string, skip 
 func judgePipe(m *mon.M, c *Case, e *expectation, o *observation) {
 	rec, p := o.pipe, c.Pipe
 	ch := channel(c)
-	opt := optFeature(c)
+	opt := optFeature(c) + entryFeature(c)
 	if rec.harness != "" {
 		// the harness's own description or application was refused: nothing was observed about the credentials
 		m.Class("pipeline/not-served(harness): " + clipTo(rec.harness, 80))
@@ -553,6 +553,8 @@ func judgePipe(m *mon.M, c *Case, e *expectation, o *observation) {
 		}
 	}
 
+	judgeAlternativeScopes(m, c, o)
+
 	// "never a principal other than the callback's": what the authorizer is shown was returned by a callback of this request
 	for _, got := range rec.authorized {
 		found := false
@@ -589,6 +591,162 @@ func judgePipe(m *mon.M, c *Case, e *expectation, o *observation) {
 	if len(rec.calls) > 0 {
 		m.Note("pipeline_cases_with_callbacks", 1)
 	}
+}
+
+// judgeAlternativeScopes: "together with the operation's required scopes", for a requirement whose alternatives name the same
+// scope-aware scheme more than once. A consultation of the scheme's callback belongs to the evaluation of ONE alternative
+// and is owed the scopes THAT alternative asks of the scheme. Which alternatives are evaluated, and in which order, is not
+// judged (C02); but no alternative asks for a credential check more than once, so the scope lists the callback was handed
+// during one request, taken with their multiplicities, must be found among the lists the requirement gives the scheme, each
+// of those used at most once: when the callback was consulted as often as alternatives name the scheme, every list shows up.
+// (More consultations than alternatives naming the scheme: classed, not judged here.) Lists are compared as sets.
+func judgeAlternativeScopes(m *mon.M, c *Case, o *observation) {
+	rec, p := o.pipe, c.Pipe
+	for _, s := range p.Schemes {
+		if s.Type != "oauth2" {
+			continue
+		}
+		given := map[string]int{} // scope set -> alternatives that ask it of this scheme
+		var wants []string
+		naming := 0
+		for _, alt := range p.Alts {
+			for _, rq := range alt {
+				if rq.Scheme == s.Name {
+					naming++
+					given[scopeSet(rq.Scopes)]++
+					wants = append(wants, scopeSet(rq.Scopes))
+				}
+			}
+		}
+		if naming < 2 {
+			continue
+		}
+		distinct := "same-scopes"
+		if len(given) > 1 {
+			distinct = "different-scopes"
+		}
+		handed := map[string]int{}
+		var gots []string
+		n := 0
+		for _, k := range rec.calls {
+			if k.scheme == s.Name {
+				n++
+				handed[scopeSet(k.scopes)]++
+				gots = append(gots, scopeSet(k.scopes))
+			}
+		}
+		if n == 0 {
+			continue
+		}
+		m.Class(fmt.Sprintf("pipeline/scheme-named-by-several-alternatives/%s/consulted-%d-of-%d", distinct, n, naming))
+		if n > naming {
+			m.Class("pipeline/scheme-consulted-more-often-than-alternatives-name-it(not judged)")
+			continue
+		}
+		over := ""
+		for _, g := range gots { // in the order of consultation: no verdict depends on map order
+			if handed[g] > given[g] && given[g] > 0 && over == "" {
+				over = g
+			}
+		}
+		if over == "" {
+			continue // lists no alternative asks for at all are reported per consultation (scopes-differ)
+		}
+		all := "some-alternatives-consulted"
+		if n == naming {
+			all = "every-alternative-consulted"
+		}
+		m.Violate("pipeline/bearer/scopes-of-another-alternative/"+all+"/"+p.company(s.Name),
+			fmt.Sprintf("[%s] pipeline (%s, requirement %s): %d alternatives name the scheme %q and ask of it the scopes %s; during one request its callback was consulted %d times and handed %s: "+
+				"the list %s was handed %d times but only %d alternative(s) ask for it, so a consultation came with the scopes of another alternative than the one being evaluated",
+				channel(c), p.via(), p.shape(), naming, s.Name, strings.Join(wants, ", "), n, strings.Join(gots, ", "), over, handed[over], given[over]), rep(c))
+	}
+}
+
+// sameSchemeAlternatives makes the requirement one whose alternatives (two or three) all name ONE scope-aware scheme, each
+// with a scope list of its own (pairwise different as sets), alone or next to what the alternative drew anyway: "admin, or
+// else read" of one OAuth2 provider. So that the alternatives are gone through, the callbacks mostly refuse, and a case
+// without any bearer credential gets a token in the query.
+func sameSchemeAlternatives(r *rand.Rand, c *Case, p *Pipe, scheme string) {
+	for len(p.Alts) < 2 {
+		p.Alts = append(p.Alts, nil)
+	}
+	seen := map[string]bool{}
+	for a := range p.Alts {
+		var sc []string
+		for {
+			sc = append([]string{}, scopeSets[r.Intn(len(scopeSets))]...)
+			if !seen[scopeSet(sc)] {
+				break
+			}
+		}
+		seen[scopeSet(sc)] = true
+		found := false
+		for i := range p.Alts[a] {
+			if p.Alts[a][i].Scheme == scheme {
+				p.Alts[a][i].Scopes, found = sc, true
+			}
+		}
+		switch {
+		case r.Intn(3) != 0:
+			// the scheme alone: every scheme of an alternative must accept, and the other callbacks refuse like this one
+			p.Alts[a] = []PipeReq{{Scheme: scheme, Scopes: sc}}
+		case found:
+		case len(p.Alts[a]) >= 2 || (len(p.Alts[a]) == 1 && r.Intn(2) == 0):
+			p.Alts[a][r.Intn(len(p.Alts[a]))] = PipeReq{Scheme: scheme, Scopes: sc} // in the place of another scheme
+			dedupe(&p.Alts[a])
+		default:
+			p.Alts[a] = append(p.Alts[a], PipeReq{Scheme: scheme, Scopes: sc})
+		}
+	}
+	if r.Intn(4) != 0 {
+		c.Outcome = []string{"err", "err", "both", "none"}[r.Intn(4)]
+	}
+	if e := expect(c); !e.bearer {
+		taken := map[string]bool{}
+		for _, l := range [][]Cred{c.OpAuth, c.Default} {
+			for _, w := range l {
+				taken[string(w.Token)] = true
+			}
+		}
+		if c.Preset != nil {
+			taken[string(c.Preset.Token)] = true
+		}
+		for _, v := range append(append([]string{}, baseStatic...), patternStatic...) {
+			taken[v] = true
+		}
+		c.HasQueryTok = true
+		c.QueryTok = mon.Q(tokenSet(taken).fresh(r, anyToken))
+	}
+}
+
+// namedSchemes: those of the definitions that an alternative of the requirement names.
+func namedSchemes(p *Pipe, defs []PipeScheme) []PipeScheme {
+	var named []PipeScheme
+	for _, s := range defs {
+		for _, alt := range p.Alts {
+			for _, rq := range alt {
+				if rq.Scheme == s.Name {
+					named = append(named, s)
+					s.Name = "" // once
+				}
+			}
+		}
+	}
+	return named
+}
+
+// dedupe drops a second mention of a scheme in one alternative (the first stays).
+func dedupe(alt *[]PipeReq) {
+	seen := map[string]bool{}
+	var out []PipeReq
+	for _, rq := range *alt {
+		if !seen[rq.Scheme] {
+			seen[rq.Scheme] = true
+			out = append(out, rq)
+		}
+	}
+	*alt = out
 }
 
 func clipTo(s string, n int) string {
@@ -654,23 +812,18 @@ func addPipe(r *rand.Rand, c *Case) {
 		}
 		p.Alts = append(p.Alts, alt)
 	}
+	same := r.Intn(4) == 0
 	// an application validates its registrations against the description (API.Validate), which wants every definition
 	// and every registered authenticator to be required somewhere: the definitions no alternative names are left out
-	var named []PipeScheme
-	for _, s := range p.Schemes {
-		for _, alt := range p.Alts {
-			for _, rq := range alt {
-				if rq.Scheme == s.Name {
-					named = append(named, s)
-					s.Name = "" // once
-				}
-			}
-		}
-	}
-	p.Schemes = named
+	all := p.Schemes
+	p.Schemes = namedSchemes(p, all)
 	c.Pipe = p
 	c.Reuse = "" // the pipeline consults the one request it received as it sees fit
 	if r.Intn(10) < 6 {
 		c.Outcome = "ok" // an accepted scheme lets the pipeline go on to the next one of the alternative
+	}
+	if same {
+		sameSchemeAlternatives(r, c, p, scoped[0])
+		p.Schemes = namedSchemes(p, all)
 	}
 }
